@@ -5,7 +5,7 @@ import ast
 
 from ..cfg import CFG
 from ..loops import ENV_LOOPS, Origins, find_env_loop, strip_wrappers, dotted
-from ..repo import Repo, loc, short, positional_params, AnalysisError
+from ..repo import Repo, loc, short, positional_params, bind_call, AnalysisError
 
 EXPLANATION = (
     "For each of the environment-interaction loops of rl_blox the checker builds the statement CFG and reaching "
@@ -17,7 +17,7 @@ EXPLANATION = (
 )
 TRUSTED = [
     "gymnasium protocol: env.step returns (next_obs, reward, terminated, truncated, info); env.reset returns (obs, info)",
-    "CPython ast semantics; int()/float()/np.asarray()/jnp.array()/jnp.copy()/x[jnp.newaxis] preserve the stored value",
+    "CPython ast semantics; int()/float()/np.asarray()/jnp.array()/jnp.copy()/x[jnp.newaxis] preserve the stored value; np.asarray of an array is the same object (no copy)",
     "vector environments auto-reset (no in-loop reset obligation for a2c/ppo collect_trajectories)",
 ]
 RULES = {
@@ -25,11 +25,16 @@ RULES = {
                      "1/0/2/3 of the step statement of the same iteration as their only origin; the stored action has the "
                      "same reaching definitions as the action passed to env.step",
     "R2-obs-provenance": "every definition of the stored observation that reaches the step statement originates in reset()[0], "
-                         "position 0 of the step statement (carry) or a parameter; store site sees the same definitions as the step",
+                         "position 0 of the step statement (carry) or a parameter; the stored observation is the observation variable (or a plain "
+                         "copy of it, followed to where the copy was made) with the definitions the step saw and no redefinition in between "
+                         "(value-preserving x = wrapper(x) aside); the object returned at position 0 is not overwritten element-wise while it "
+                         "is still to be stored / carried",
     "R3-boundary": "from every in-loop reset definition of the observation no other definition of it is reachable without passing "
-                   "env.step; no path from step back to step leaves the observation undefined-stale; in-loop resets bind the observation",
+                   "env.step; no path from step back to step leaves the observation undefined-stale; in-loop resets bind the observation; "
+                   "a single-environment loop in which the environment is only used through its attributes has a reset statement",
     "R4-act-on-current": "the observation used to compute the action passed to env.step has the same reaching definitions as "
-                         "the stored observation and never is the successor observation",
+                         "the stored observation and never is the successor observation; after an in-loop reset the action is computed "
+                         "again on every path to env.step (a value chosen before the reset is not carried over by copies)",
 }
 
 # parameter / keyword names -> role.  Names of *API parameters* of the store callee, not of local variables.
@@ -66,35 +71,52 @@ def _store_sites(repo: Repo, L, ck):
     for q in SIG_STORES.get(L.qual, []):
         f = repo.func(q)
         sig_callees[q.rsplit(".", 1)[1]] = (q, f)
-    # Monte-Carlo: arrays filled with .at[i].set(x); role of the array = parameter of `update` it is passed to
-    arr_role = {}
+    sig_quals = {q: (q, f) for q, f in sig_callees.values() if not q.endswith("monte_carlo.update")}
+    # Monte-Carlo: arrays filled with .at[i].set(x); role of the array = parameter of `update` it is passed to (bound by signature)
+    arr_role, arr_clash = {}, set()
     if L.qual.endswith("train_monte_carlo"):
         q, f = sig_callees["update"]
-        pp = positional_params(f)
         for n in cfg.nodes:
             if n.ast is None:
                 continue
             for c in ast.walk(n.ast):
-                if isinstance(c, ast.Call) and isinstance(c.func, ast.Name) and c.func.id == "update":
-                    for i, a in enumerate(c.args):
-                        b = a
-                        while isinstance(b, ast.Subscript):
-                            b = b.value
-                        if isinstance(b, ast.Name) and i < len(pp) and pp[i] in ROLE_OF:
-                            arr_role[b.id] = ROLE_OF[pp[i]]
-    # PPO: lists appended per step; role = field of the returned namedtuple the list flows into
-    list_role = {}
+                if isinstance(c, ast.Call) and isinstance(c.func, (ast.Name, ast.Attribute)) and repo.resolve_expr(fn_mod, c.func) == q:
+                    for pname, a in bind_call(f, c).items():
+                        if not isinstance(a, ast.AST) or pname not in ROLE_OF:
+                            continue
+                        for nm in _flows_from(cfg, a, n.id):      # `obs_arr[start:i + 1]`, also through a temporary
+                            if arr_role.setdefault(nm, ROLE_OF[pname]) != ROLE_OF[pname]:
+                                arr_clash.add(nm)
+        for nm in arr_clash:
+            arr_role.pop(nm, None)
+    # PPO: lists appended per step; role = field of the returned namedtuple the list flows into (through the assignments that
+    # stack / reshape it after the loop)
+    list_role, clash = {}, set()
     for n in cfg.nodes:
         s = n.ast
-        if isinstance(s, ast.Return) and isinstance(s.value, ast.Call) and isinstance(s.value.func, ast.Call) and dotted(s.value.func.func) == "namedtuple":
-            nt = s.value.func
-            if len(nt.args) == 2 and isinstance(nt.args[1], (ast.List, ast.Tuple)):
-                fields = [e.value for e in nt.args[1].elts if isinstance(e, ast.Constant)]
-                for fld, val in zip(fields, s.value.args):
-                    if fld in ROLE_OF:
-                        for x in ast.walk(val):
-                            if isinstance(x, ast.Name):
-                                list_role.setdefault(x.id, ROLE_OF[fld])
+        if not (isinstance(s, ast.Return) and isinstance(s.value, ast.Call)):
+            continue
+        fields = None
+        ctor = s.value.func
+        if isinstance(ctor, ast.Call) and dotted(ctor.func).rsplit(".", 1)[-1] == "namedtuple" and len(ctor.args) == 2 and isinstance(ctor.args[1], (ast.List, ast.Tuple)) \
+                and all(isinstance(e, ast.Constant) and isinstance(e.value, str) for e in ctor.args[1].elts):
+            fields = [e.value for e in ctor.args[1].elts]                  # namedtuple("R", [...])(...)
+        elif isinstance(ctor, (ast.Name, ast.Attribute)):
+            q = repo.resolve_expr(fn_mod, ctor)                             # a NamedTuple / dataclass / namedtuple(...) of the package
+            if q and repo.has(q):
+                from ..nf import NF
+                fields = NF._record_fields(repo.lookup(q)[1])
+        if not fields or any(isinstance(a, ast.Starred) for a in s.value.args) or any(kw.arg is None for kw in s.value.keywords):
+            continue
+        bound = dict(zip(fields, s.value.args))
+        bound.update({kw.arg: kw.value for kw in s.value.keywords})
+        for fld, val in bound.items():
+            if fld in ROLE_OF:
+                for nm in _flows_from(cfg, val, n.id):
+                    if list_role.setdefault(nm, ROLE_OF[fld]) != ROLE_OF[fld]:
+                        clash.add(nm)
+    for nm in clash:
+        list_role.pop(nm, None)
     for nid in sorted(body):
         n = cfg.nodes[nid]
         s = n.ast
@@ -113,33 +135,20 @@ def _store_sites(repo: Repo, L, ck):
                         elif kw.arg is not None:
                             ck.note(f"{L.qual}: add_sample keyword {kw.arg!r} has no protocol role (ignored)")
                 else:
-                    # positional: EpisodeDataset.add_sample(observation, action, next_observation, reward)
-                    owner = None
-                    for cand in ("rl_blox.algorithm.reinforce.EpisodeDataset",):
-                        if repo.has(cand):
-                            owner = cand
-                    m = repo.method(owner, "add_sample") if owner else None
-                    if m is None:
-                        raise AnalysisError(f"{L.qual}: positional add_sample but EpisodeDataset.add_sample not found")
-                    pp = positional_params(m[1])[1:]
-                    for i, a in enumerate(c.args):
-                        if i < len(pp) and pp[i] in ROLE_OF:
-                            roles[ROLE_OF[pp[i]]] = a
-                    for kw in c.keywords:
-                        if kw.arg in ROLE_OF:
-                            roles[ROLE_OF[kw.arg]] = kw.value
+                    # positional: EpisodeDataset.add_sample(observation, action, next_observation, reward) - bound by the signature of the
+                    # add_sample method of the receiver's class
+                    m = _positional_add_sample(repo, L, nid, f.value)
+                    for pname, a in bind_call(m[1], c, skip_self=True).items():
+                        if pname in ROLE_OF and isinstance(a, ast.AST):
+                            roles[ROLE_OF[pname]] = a
                 sites.append((nid, c, roles, f"{dotted(f)}(...)"))
-            elif isinstance(f, ast.Name) and f.id in sig_callees and f.id != "update":
-                q, fdef = sig_callees[f.id]
-                pp = positional_params(fdef)
+            elif isinstance(f, (ast.Name, ast.Attribute)) and repo.resolve_expr(fn_mod, f) in sig_quals and not (isinstance(f, ast.Name) and cfg.defs_of(nid, f.id)):
+                q, fdef = sig_quals[repo.resolve_expr(fn_mod, f)]
                 roles = {}
-                for i, a in enumerate(c.args):
-                    if i < len(pp) and pp[i] in ROLE_OF:
-                        roles[ROLE_OF[pp[i]]] = a
-                for kw in c.keywords:
-                    if kw.arg in ROLE_OF:
-                        roles[ROLE_OF[kw.arg]] = kw.value
-                sites.append((nid, c, roles, f"{f.id}(...) via signature of {q}"))
+                for pname, a in bind_call(fdef, c).items():      # positional and keyword arguments, keyword-only parameters
+                    if pname in ROLE_OF and isinstance(a, ast.AST):
+                        roles[ROLE_OF[pname]] = a
+                sites.append((nid, c, roles, f"{q.rsplit('.', 1)[1]}(...) via signature of {q}"))
             elif isinstance(f, ast.Attribute) and f.attr == "set" and isinstance(f.value, ast.Subscript) and isinstance(f.value.value, ast.Attribute) \
                     and f.value.value.attr == "at" and isinstance(f.value.value.value, ast.Name) and f.value.value.value.id in arr_role and c.args:
                 arr = f.value.value.value.id
@@ -150,24 +159,114 @@ def _store_sites(repo: Repo, L, ck):
     return sites
 
 
+def _positional_add_sample(repo, L, at, receiver):
+    """(owner, FunctionDef) of the add_sample method a positional call binds to: the class the receiver is constructed from / annotated
+    with; failing that the only class of the package whose add_sample takes positional arguments."""
+    cands = []
+    if isinstance(receiver, ast.Name):
+        for d in L.cfg.defs_of(at, receiver.id):
+            e = None
+            if d.kind in ("assign", "walrus") and isinstance(d.value, ast.Call):
+                e = d.value.func
+            elif d.kind == "param":
+                for a in L.fn.args.posonlyargs + L.fn.args.args + L.fn.args.kwonlyargs:
+                    if a.arg == d.name and a.annotation is not None:
+                        e = a.annotation.left if isinstance(a.annotation, ast.BinOp) else a.annotation
+            q = repo.resolve_expr(L.mi, e) if isinstance(e, (ast.Name, ast.Attribute)) else None
+            try:
+                repo.cls(q)
+            except Exception:
+                q = None
+            cands.append(q)
+    if cands and all(cands) and len(set(cands)) == 1:
+        m = repo.method(cands[0], "add_sample")
+        if m is not None:
+            return m
+    owners = []
+    for mi in repo.modules.values():
+        for name, node in mi.defs.items():
+            if isinstance(node, ast.ClassDef):
+                for ch in node.body:
+                    if isinstance(ch, ast.FunctionDef) and ch.name == "add_sample" and len(positional_params(ch)) > 1:
+                        owners.append(repo.canonical(f"{mi.name}.{name}", node))
+    if len(owners) != 1:
+        raise AnalysisError(f"{L.qual}: positional add_sample on `{short(receiver, 30)}`: the class of the receiver is not resolved and {len(owners)} classes define a positional add_sample (unrecognised form)")
+    m = repo.method(owners[0], "add_sample")
+    if m is None:
+        raise AnalysisError(f"{L.qual}: add_sample of {owners[0]} not found (unrecognised form)")
+    return m
+
+
 def _names_in(e):
     return {x.id for x in ast.walk(e) if isinstance(x, ast.Name)}
 
 
+def _flows_from(cfg, e, at, depth=4):
+    """Names whose value flows into expression ``e`` at node ``at`` through plain assignments (`xs` of `ys = jnp.concat(xs)`; `return f(ys)`)."""
+    out, seen = set(), set()
+    work = [(e, at, 0)]
+    while work:
+        x, n, k = work.pop()
+        for nm in _names_in(x):
+            out.add(nm)
+            if k >= depth:
+                continue
+            for d in cfg.defs_of(n, nm):
+                if d.key() in seen or d.kind not in ("assign", "walrus") or not isinstance(d.value, ast.AST) or isinstance(d.value, ast.stmt):
+                    continue
+                seen.add(d.key())
+                work.append((d.value, d.node, k + 1))
+    return out
+
+
+def _step_action(L):
+    """The action expression passed to env.step (gymnasium: ``step(action)``), positional or by keyword."""
+    c = L.step_call
+    if c.args and not isinstance(c.args[0], ast.Starred):
+        return c.args[0]
+    for kw in c.keywords:
+        if kw.arg == "action":
+            return kw.value
+    return None
+
+
 def _action_base(L):
-    a = L.step_call.args[0] if L.step_call.args else None
+    a = _step_action(L)
     if a is None:
         return None
     b = strip_wrappers(a)
     return b.id if isinstance(b, ast.Name) else None
 
 
+def _is_self_wrap(d) -> bool:
+    """``x = int(x)`` / ``x = np.asarray(x)``: a redefinition that keeps the value (trusted wrappers)."""
+    if d.kind != "assign" or not isinstance(d.value, ast.AST) or isinstance(d.value, ast.stmt):
+        return False
+    b = strip_wrappers(d.value)
+    return isinstance(b, ast.Name) and b.id == d.name
+
+
+def _eff_defs(cfg, at, name, _seen=None) -> frozenset:
+    """Reaching definitions of ``name`` on entry to ``at``, read through value-preserving self-redefinitions."""
+    _seen = set() if _seen is None else _seen
+    out = set()
+    for d in cfg.defs_of(at, name):
+        if d.key() in _seen:
+            continue
+        if _is_self_wrap(d):
+            _seen.add(d.key())
+            out |= _eff_defs(cfg, d.node, name, _seen)
+        else:
+            out.add(d.key())
+    return frozenset(out)
+
+
 def _obs_var(L, stores, org):
     """The variable holding the *current* observation: bound by a reset (pre-loop or in-loop) or target of a carry
-    ``x = <position 0 of step>``; for loops fed through a parameter (A2C/PPO) the carry target."""
+    ``x = <position 0 of step>``; for loops fed through a parameter (A2C/PPO) the carry target.  Several equally good candidates are
+    told apart by which of them is defined when the loop is entered (the current observation exists before the first step)."""
     cfg = L.cfg
     cands = {}
-    nextvar = L.pos.get(0)
     for n in cfg.nodes:
         for d in n.defs:
             if d.kind == "param":
@@ -179,8 +278,15 @@ def _obs_var(L, stores, org):
                 cands[d.name] = cands.get(d.name, 0) + 1
     if not cands:
         return None
-    best = sorted(cands.items(), key=lambda kv: (-kv[1], kv[0]))
-    return best[0][0]
+    # the current observation exists before the first step: candidates that are defined when the loop is entered come first
+    body = cfg.loop_body_nodes(L.outer_header)
+    entered = {nm for nm in cands if any(dn not in body for dn, _ in cfg.reaching()[L.step_node].get(nm, frozenset()))}
+    pool = {nm: v for nm, v in cands.items() if nm in entered} or cands
+    top = max(pool.values())
+    best = sorted(nm for nm, v in pool.items() if v == top)
+    if len(best) > 1:
+        raise AnalysisError(f"{L.qual}: several variables {best} could hold the current observation (unrecognised form)")
+    return best[0]
 
 
 def _episode_record(ck, repo):
@@ -194,14 +300,19 @@ def _episode_record(ck, repo):
     if m is None:
         raise AnalysisError(f"{cq}.add_sample not found (anchor vanished)")
     fn = m[1]
-    mi = repo.cls(cq)._module
+    mi = repo.cls(m[0])._module          # the class that defines the method (it may be inherited from a base class / mixin)
     fn._module = mi
     nf = NF(repo, inline_calls=False)
     cfg = nf.cfg_of(fn)
-    params = [p for p in positional_params(fn) if p != "self"]
-    if len(params) != 4:
+    allp = positional_params(fn)[1:] + [a.arg for a in fn.args.kwonlyargs]      # without the receiver
+    by_role = {ROLE_OF[p]: p for p in allp if p in ROLE_OF}
+    if {"O", "A", "N", "R"} <= set(by_role):
+        params = [by_role[r] for r in "OANR"]        # further (optional) parameters do not belong to the record
+    elif len(allp) == 4:
+        params = allp
+    else:
         raise AnalysisError(f"{cq}.add_sample: signature changed (anchor vanished)")
-    env0 = {p: Poly.atom(p, {p}, {p}) for p in params}
+    env0 = {p: Poly.atom(p, {p}, {p}) for p in allp}
     for pth in enumerate_paths(cfg, cfg.entry, {cfg.exit}):
         if any(isinstance(cfg.nodes[n_].ast, (ast.Raise, ast.Assert)) and cfg.nodes[n_].kind == "stmt" and isinstance(cfg.nodes[n_].ast, ast.Raise) for n_, _l in pth):
             continue
@@ -213,6 +324,14 @@ def _episode_record(ck, repo):
         held = set()
         for el in (rec.elems or [rec]):
             held |= {a for a in el.atoms() if a in params}
+            # a construction of a plain record class (NamedTuple / dataclass) keeps its arguments as fields
+            ctor = (el.single_atom() or "").split("(")[0]
+            if ctor and repo.has(ctor):
+                try:
+                    if NF._record_fields(repo.cls(ctor)):
+                        held |= {a for a in el.deps if a in params}
+                except AnalysisError:
+                    pass
         missing = [p for p in params if p not in held]
         if missing:
             raise AnalysisError(f"{cq}.add_sample: the per-step record `{rec.canon()[:80]}` does not hold {missing}: the value is kept elsewhere and reconstructed later (not read by this analysis)")
@@ -227,6 +346,121 @@ def _different_value(org, expr, at, wanted) -> bool | None:
         return None
     others = {x for x in d if x[0] in ("step", "reset") and x[:2] != wanted[:2]}
     return True if others else None
+
+
+def _env_confined(L) -> bool:
+    """True when every use of the environment parameter in the function is `<env>.<attribute>...`, the environment is never passed on,
+    aliased or rebound, and every `<env>.reset` is a statement of the function itself (not of a nested function / lambda): a reset can then
+    only happen at the reset statements find_env_loop enumerates."""
+    base_of_attr = {id(x.value) for x in ast.walk(L.fn) if isinstance(x, ast.Attribute)}
+    own = L.fn.args.posonlyargs + L.fn.args.args + L.fn.args.kwonlyargs
+    for x in ast.walk(L.fn):
+        if isinstance(x, ast.Name) and x.id == L.env and not (isinstance(x.ctx, ast.Load) and id(x) in base_of_attr):
+            return False
+        if isinstance(x, ast.arg) and x.arg == L.env and not any(x is a for a in own):
+            return False      # a nested function / lambda has a parameter of the same name
+    def n_resets(t):
+        return sum(1 for x in ast.walk(t) if isinstance(x, ast.Attribute) and x.attr == "reset" and isinstance(x.value, ast.Name) and x.value.id == L.env)
+    return n_resets(L.fn) == sum(n_resets(L.cfg.nodes[r].ast) for r in set(L.resets_pre) | set(L.resets_in))
+
+
+NOCOPY = {"np.asarray", "numpy.asarray"}      # of an array: the same object, not a copy
+
+
+def _is_step0_object(cfg, L, name, at, seen=None) -> bool:
+    """Some definition of ``name`` reaching ``at`` makes it the very object env.step returned at position 0: bound by the step statement,
+    a plain assignment / element of a tuple assignment of such a name, or np.asarray of it (no copy)."""
+    seen = set() if seen is None else seen
+    for d in cfg.defs_of(at, name):
+        if d.key() in seen:
+            continue
+        seen.add(d.key())
+        if d.kind == "unpack" and d.node == L.step_node and tuple(d.path) == (0,):
+            return True
+        v = None
+        if d.kind in ("assign", "walrus") and isinstance(d.value, ast.AST) and not isinstance(d.value, ast.stmt):
+            v = d.value
+        elif d.kind == "unpack" and isinstance(d.value, (ast.Tuple, ast.List)) and len(d.path) == 1 and isinstance(d.path[0], int) and d.path[0] < len(d.value.elts) \
+                and not any(isinstance(x, ast.Starred) for x in d.value.elts):
+            v = d.value.elts[d.path[0]]
+        while isinstance(v, ast.Call) and dotted(v.func) in NOCOPY and len(v.args) == 1 and not v.keywords and not isinstance(v.args[0], ast.Starred):
+            v = v.args[0]
+        if isinstance(v, ast.Name) and _is_step0_object(cfg, L, v.id, d.node, seen):
+            return True
+    return False
+
+
+def _writes_elements(stmt, name) -> bool:
+    """`name[...] = v` / `name[...] += v`: the statement overwrites elements of the object bound to ``name``."""
+    if isinstance(stmt, ast.Assign):
+        tgts = stmt.targets
+    elif isinstance(stmt, (ast.AugAssign, ast.AnnAssign)):
+        tgts = [stmt.target]
+    else:
+        return False
+    flat = []
+    for t in tgts:
+        flat += list(t.elts) if isinstance(t, (ast.Tuple, ast.List)) else [t]
+    for t in flat:
+        while isinstance(t, ast.Subscript):
+            t = t.value
+            if isinstance(t, ast.Name) and t.id == name:
+                return True
+    return False
+
+
+def _copy_source(cfg, e, at, target, depth=6):
+    """Follow plain copies: when the value of ``e`` at node ``at`` is the value variable ``target`` had on entry to some node p
+    (``e`` is `target` itself, or a variable whose single reaching definition is a (wrapped) copy ... of `target`), return p; else None."""
+    for _ in range(depth):
+        b = strip_wrappers(e)
+        if not isinstance(b, ast.Name):
+            return None
+        if b.id == target:
+            return at
+        ds = cfg.defs_of(at, b.id)
+        if len(ds) != 1:
+            return None
+        d = ds[0]
+        if d.kind in ("assign", "walrus") and isinstance(d.value, ast.AST) and not isinstance(d.value, ast.stmt):
+            e, at = d.value, d.node
+        elif d.kind == "unpack" and isinstance(d.value, (ast.Tuple, ast.List)) and len(d.path) == 1 and isinstance(d.path[0], int) and d.path[0] < len(d.value.elts) \
+                and not any(isinstance(x, ast.Starred) for x in d.value.elts):
+            e, at = d.value.elts[d.path[0]], d.node
+        else:
+            return None
+    return None
+
+
+def _stale_action_nodes(cfg, L, act):
+    """Nodes that give the action passed to env.step a newly computed value: non-copy definitions (anything but `a = b` / wrappers /
+    element-wise tuple copies) and in-place updates of a variable from which the action is reached through copies."""
+    closure, grew = set(_names_in(act)), True
+    defs = [d for n in cfg.nodes for d in n.defs]
+
+    def copy_src(d):
+        if d.kind in ("assign", "walrus") and isinstance(d.value, ast.AST) and not isinstance(d.value, ast.stmt):
+            v = d.value
+        elif d.kind == "unpack" and isinstance(d.value, (ast.Tuple, ast.List)) and len(d.path) == 1 and isinstance(d.path[0], int) and d.path[0] < len(d.value.elts) \
+                and not any(isinstance(x, ast.Starred) for x in d.value.elts):
+            v = d.value.elts[d.path[0]]
+        else:
+            return None
+        b = strip_wrappers(v)
+        return b.id if isinstance(b, ast.Name) else None
+    while grew:
+        grew = False
+        for d in defs:
+            if d.name in closure:
+                src = copy_src(d)
+                if src is not None and src not in closure:
+                    closure.add(src)
+                    grew = True
+    fresh = set()
+    for n in cfg.nodes:
+        if any(d.name in closure and d.kind != "param" and copy_src(d) is None for d in n.defs) or (n.mutates & closure):
+            fresh.add(n.id)
+    return fresh, closure
 
 
 def run(ck, repo: Repo, tier: str):
@@ -244,17 +478,53 @@ def run(ck, repo: Repo, tier: str):
         org = Origins(L)
         org.repo = repo
         site = L.qual
+
+        def und(msg):
+            """an obligation that cannot be decided: recorded, the remaining obligations of the loop are still evaluated"""
+            ck.incomplete.append(msg)
         stores = _store_sites(repo, L, ck)
         n_sites += len(stores)
+        n_sites_box[0] += n_sites
         ck.need(stores, f"{site}: no store site found (unrecognised idiom)")
         ovar = _obs_var(L, stores, org)
         ck.need(ovar is not None, f"{site}: cannot identify the observation variable at any store site")
+        act = _step_action(L)
         avar = _action_base(L)
         ck.need(avar is not None, f"{site}: env.step argument is not a (wrapped) variable")
         body = cfg.loop_body_nodes(L.outer_header)
         rd = cfg.reaching()
         defs_at_S = rd[S].get(ovar, frozenset())
-        act_defs_at_S = rd[S].get(avar, frozenset())
+        eff_at_S = _eff_defs(cfg, S, ovar)
+        nextvar = L.pos.get(0)
+        used = _obs_uses_in_action(cfg, L, avar, ovar, nextvar, body)
+        pol = [u for u in used if u[0] == ovar]
+        # `ovar` is known to carry the current observation when the policy reads it or a store site keeps it as the observation; a loop
+        # that keeps the observation elsewhere (an attribute of a tracker object, ...) gives no ground for the path obligations on `ovar`
+        anchored = [bool(pol)]
+
+        def ob_on_ovar(rule, key, ok, construct, why, where, wit=None):
+            if not ok and not anchored[0]:
+                und(f"{site}: {rule}/{key} fails for `{ovar}`, but neither the policy nor a store site reads `{ovar}` as the observation (the observation is kept elsewhere: unrecognised form)")
+                return
+            ck.ob(rule, site, key, ok, construct, why, where, wit)
+
+        def same_as_at_step(p):
+            """(ok, why) - does `ovar` on entry to node p hold the value env.step of the same iteration acted on?  None when p and the
+            step are not ordered within the iteration."""
+            after = cfg.dominates(S, p)
+            here = _eff_defs(cfg, p, ovar)
+            if after:
+                between = _defs_between(cfg, S, p, ovar)
+            elif cfg.dominates(p, S):
+                between = _defs_between(cfg, p, S, ovar)
+            else:
+                return None
+            ok = here == eff_at_S and not between
+            why = ""
+            if not ok:
+                why = (f"observation `{ovar}` at the store site is defined at lines {_lines(cfg, here)} but env.step acted on the "
+                       f"definitions at lines {_lines(cfg, eff_at_S)}" + (f"; redefined between step and store at line(s) {between}" if between else ""))
+            return ok, why
 
         # ---- R1 / R2(store part) --------------------------------------------------------------
         for nid, call, roles, desc in stores:
@@ -267,7 +537,8 @@ def run(ck, repo: Repo, tier: str):
                     ok = (o == want) and after_S
                     why = ""
                     if o != want and Origins.unknown(o) and _different_value(org, arg, nid, ("step", STEP_POS[role])) is None:
-                        raise AnalysisError(f"{site}: the {role} argument `{short(arg, 50)}` of the store cannot be traced to the step results ({sorted(map(str, Origins.unknown(o)))[:2]})")
+                        und(f"{site}: the {role} argument `{short(arg, 50)}` of the store cannot be traced to the step results ({sorted(map(str, Origins.unknown(o)))[:2]}) (unrecognised form)")
+                        continue
                     if o != want:
                         why = f"origin of the {role} argument is {sorted(map(str, o))}, expected position {STEP_POS[role]} of `{short(L.step_stmt, 60)}`"
                     elif not after_S:
@@ -276,37 +547,47 @@ def run(ck, repo: Repo, tier: str):
                 elif role == "A":
                     # the stored action is the value passed to env.step (same provenance: same definitions, through copies / records)
                     o_st = org.of_expr(arg, nid)
-                    o_act = org.of_expr(L.step_call.args[0], S)
+                    o_act = org.of_expr(act, S)
                     ok = bool(o_st) and o_st == o_act
                     why = "" if ok else f"stored action `{short(arg, 40)}` does not have the provenance of the action passed to env.step (`{avar}`): {sorted(map(str, o_st))[:2]} vs {sorted(map(str, o_act))[:2]}"
                     if not ok and any(x[0] in ("unpack", "for", "with", "global", "attr-in") for x in o_st | o_act):
-                        raise AnalysisError(f"{site}: the stored action `{short(arg, 40)}` cannot be related to the action passed to env.step")
+                        und(f"{site}: the stored action `{short(arg, 40)}` cannot be related to the action passed to env.step (unrecognised form)")
+                        continue
+                    if not ok:
+                        # evidence of another value: neither is computed from the other (two separate evaluations).  A stored value that
+                        # is computed *from* the action passed to env.step (`action.copy()`, a cast) - or the other way round - is not read here.
+                        seen_st, seen_act = set(), set()
+                        org.deps(arg, nid, seen_st)
+                        org.deps(act, S, seen_act)
+                        d_st = {d.key() for nm in _names_in(arg) for d in cfg.defs_of(nid, nm)}
+                        d_act = {d.key() for nm in _names_in(act) for d in cfg.defs_of(S, nm)}
+                        if (d_act & (seen_st | d_st)) or (d_st & seen_act):
+                            und(f"{site}: the stored action `{short(arg, 40)}` and the action passed to env.step `{short(act, 40)}` are computed from one another; whether the value is kept is not read (unrecognised form)")
+                            continue
                     ck.ob("R1-store-role", site, f"A:{desc.split('(')[0]}", ok, f"A <- {short(arg, 50)} at {desc}", why, where)
                 elif role == "O":
                     b = strip_wrappers(arg)
-                    if not isinstance(b, ast.Name):
-                        # a field of a record / another expression: judged by provenance
-                        o_st, o_ref = org.of_expr(arg, nid), org.of_name(ovar, S)
-                        if Origins.unknown(o_st) or Origins.unknown(o_ref):
-                            raise AnalysisError(f"{site}: the stored observation `{short(arg, 50)}` cannot be traced (unrecognised form)")
-                        ck.ob("R2-obs-provenance", site, f"O-same-as-step:{desc.split('(')[0]}", o_st == o_ref, f"O <- {short(arg, 50)} at {desc}",
-                              "" if o_st == o_ref else f"the stored observation originates in {sorted(map(str, o_st))}, the observation env.step acted on in {sorted(map(str, o_ref))}", where)
+                    key_o = f"O-same-as-step:{desc.split('(')[0]}"
+                    p = _copy_source(cfg, arg, nid, ovar)
+                    if p is not None:
+                        anchored[0] = True
+                        # the stored value is the observation variable as it was on entry to node p (the store itself, or a copy made at p)
+                        r = same_as_at_step(p)
+                        if r is None:
+                            und(f"{site}: the stored observation `{short(arg, 50)}` is read at a point that is not ordered with env.step in the iteration (unrecognised form)")
+                            continue
+                        ck.ob("R2-obs-provenance", site, key_o, r[0], f"O <- {short(arg, 50)} at {desc}", r[1], where)
                         continue
-                    if b.id != ovar:
-                        ck.ob("R2-obs-provenance", site, f"O-is-current-observation:{desc.split('(')[0]}", False, f"O <- {short(arg, 50)} at {desc}",
-                              f"the stored observation is `{b.id}`, not the current-observation variable `{ovar}` the step acted on", where)
+                    # another variable / a field of a record / another expression: judged by provenance
+                    o_st, o_ref = org.of_expr(arg, nid), org.of_name(ovar, S)
+                    if Origins.unknown(o_st) or Origins.unknown(o_ref):
+                        und(f"{site}: the stored observation `{short(arg, 50)}` cannot be traced (unrecognised form)")
                         continue
-                    here = rd[nid].get(b.id, frozenset())
-                    ref = rd[S].get(b.id, frozenset())
-                    between = _defs_between(cfg, S, nid, b.id) if after_S else []
-                    if not after_S and cfg.dominates(nid, S):
-                        between = _defs_between(cfg, nid, S, b.id)
-                    ok = here == ref and not between
-                    why = ""
-                    if not ok:
-                        why = (f"observation `{b.id}` at the store site is defined at lines {_lines(cfg, here)} but env.step acted on the "
-                               f"definitions at lines {_lines(cfg, ref)}" + (f"; redefined between step and store at line(s) {between}" if between else ""))
-                    ck.ob("R2-obs-provenance", site, f"O-same-as-step:{desc.split('(')[0]}", ok, f"O <- {short(arg, 50)} at {desc}", why, where)
+                    if o_st == o_ref and isinstance(b, ast.Name):
+                        und(f"{site}: the stored observation `{b.id}` has the provenance of `{ovar}` but whether it is the value env.step acted on is not read (unrecognised form)")
+                        continue
+                    ob_on_ovar("R2-obs-provenance", key_o, o_st == o_ref, f"O <- {short(arg, 50)} at {desc}",
+                          "" if o_st == o_ref else f"the stored observation originates in {sorted(map(str, o_st))}, the observation env.step acted on in {sorted(map(str, o_ref))}", where)
 
         # ---- R2 provenance of every definition reaching S ------------------------------------------
         for dn, nm in sorted(defs_at_S):
@@ -316,37 +597,64 @@ def run(ck, repo: Repo, tier: str):
             node = cfg.nodes[dn]
             if bad and Origins.unknown(bad) and not (d.value is not None and isinstance(d.value, ast.AST) and not isinstance(d.value, ast.stmt) and _different_value(org, d.value, dn, ("step", 0)) is True
                                                      and _different_value(org, d.value, dn, ("reset", 0)) is True):
-                raise AnalysisError(f"{site}: observation `{nm}` is defined by `{short(node.ast, 60)}`, whose value cannot be traced to reset / step results (unrecognised form)")
-            ck.ob("R2-obs-provenance", site, f"def:{_def_kind(L, d)}", not bad,
+                und(f"{site}: observation `{nm}` is defined by `{short(node.ast, 60)}`, whose value cannot be traced to reset / step results (unrecognised form)")
+                continue
+            if bad and all(x[0] == "const" for x in bad):
+                # a placeholder (`obs = None`) reaches env.step only in the flow-insensitive reading of the definitions
+                und(f"{site}: observation `{nm}` is initialised by the constant `{short(node.ast, 60)}`; whether that value can reach env.step is not read (unrecognised form)")
+                continue
+            ob_on_ovar("R2-obs-provenance", f"def:{_def_kind(L, d)}", not bad,
                   f"`{nm}` defined by `{short(node.ast, 60) if node.kind != 'entry' else 'parameter'}`",
                   "" if not bad else f"observation definition originates in {sorted(map(str, bad))} (neither reset()[0], step()[0] nor a parameter)",
                   loc(L.mi, node.ast))
         ck.need(defs_at_S, f"{site}: observation `{ovar}` has no definition reaching env.step")
+        # the successor observation object is not changed in place while it is still to be stored / carried
+        later = {nid for nid, _c, _r, _d in stores} | {i for i in body for d in cfg.nodes[i].defs if d.name == ovar and ("step", 0) in org.of_def(d, set())}
+        spoiled = None
+        for i in sorted(body):
+            n = cfg.nodes[i]
+            for m in sorted(n.mutates):
+                if spoiled is None and "." not in m and cfg.dominates(S, i) and _writes_elements(n.ast, m) and _is_step0_object(cfg, L, m, i):
+                    for u in sorted(later - {i}):
+                        if any(_is_step0_object(cfg, L, x, u) for x in cfg.nodes[u].uses if "." not in x):
+                            pth = cfg.paths_avoiding(i, u, {S})
+                            if pth is not None:
+                                spoiled = (i, m, pth)
+                                break
+        ck.ob("R2-obs-provenance", site, "successor-object-unchanged", spoiled is None, "no in-place update of the object env.step returned at position 0 before it is stored / carried",
+              "" if spoiled is None else f"`{short(cfg.nodes[spoiled[0]].ast, 50)}` updates `{spoiled[1]}` in place, which is the successor observation object returned by env.step (plain assignment / np.asarray do not copy); "
+              f"that object is stored / becomes the current observation afterwards", loc(L.mi, cfg.nodes[spoiled[0]].ast) if spoiled else loc(L.mi, L.step_stmt), cfg.describe_path(spoiled[2]) if spoiled else None)
 
         # ---- R3 boundary -------------------------------------------------------------------------------
         all_defs = [(n.id, d) for n in cfg.nodes for d in n.defs if d.name == ovar]
         in_loop_defs = [(i, d) for i, d in all_defs if i in body]
+        bound_resets = []
         for r in L.resets_in:
             rn = cfg.nodes[r]
             d = cfg.get_def(r, ovar)
-            binds = d is not None and org.of_def(d, set()) == {("reset", 0, r)}
+            binds = d is not None and ("reset", 0, r) in org.of_def(d, set())      # also `obs = env.reset()[0] if done else next_obs`
+            r_from = r
             if not binds:
-                # bound through copies (helper results, tuple assignments): a definition of the observation variable whose only origin is this reset
-                via = [(i, d2) for i, d2 in in_loop_defs if org.of_def(d2, set()) == {("reset", 0, r)} and cfg.paths_avoiding(r, i, {S}) is not None]
+                # bound through copies (helper results, tuple assignments, a temporary that is carried into the observation variable
+                # afterwards): a definition of the observation variable that receives this reset's observation
+                via = [(i, d2) for i, d2 in in_loop_defs if ("reset", 0, r) in org.of_def(d2, set()) and cfg.paths_avoiding(r, i, {S}) is not None]
                 if via:
                     binds = True
-                    r_bind = via[0][0]
-                elif any(Origins.unknown(org.of_def(d2, set())) for i, d2 in in_loop_defs):
-                    raise AnalysisError(f"{site}: cannot tell whether `{short(rn.ast, 50)}` binds the observation variable `{ovar}` (values pass through untraceable definitions)")
-            ck.ob("R3-boundary", site, "reset-binds-observation", binds, f"`{short(rn.ast, 60)}`",
+                    r_from = via[0][0]
+                elif any(Origins.unknown(org.of_def(d2, set())) for i, d2 in in_loop_defs) or not in_loop_defs:
+                    und(f"{site}: cannot tell whether `{short(rn.ast, 50)}` binds the observation variable `{ovar}` (values pass through untraceable definitions) (unrecognised form)")
+                    continue
+            ob_on_ovar("R3-boundary", "reset-binds-observation", binds, f"`{short(rn.ast, 60)}`",
                   "" if binds else f"in-loop reset does not bind the observation variable `{ovar}` (its observation is discarded)", loc(L.mi, rn.ast))
             if not binds:
                 continue
-            # no other definition reachable from r without passing S
+            bound_resets.append((r, r_from))
+            # no other definition reachable from r without passing S (redefinitions that keep the reset value are not overwrites)
             offenders = []
-            r_from = locals().get("r_bind", r) if not (d is not None and org.of_def(d, set()) == {("reset", 0, r)}) else r
             for i, d2 in in_loop_defs:
                 if i == r or i == S or i == r_from:
+                    continue
+                if _is_self_wrap(d2) or org.of_def(d2, set()) == {("reset", 0, r)}:
                     continue
                 p = cfg.paths_avoiding(r_from, i, {S})
                 if p is not None:
@@ -359,40 +667,64 @@ def run(ck, repo: Repo, tier: str):
                 why = (f"the reset observation is overwritten by `{short(cfg.nodes[i].ast, 50)}` (line {cfg.nodes[i].lineno}) before the next env.step: "
                        f"the first transition of the new episode starts from a stale observation")
                 wit = cfg.describe_path(p)
-            ck.ob("R3-boundary", site, "reset-reaches-next-step", ok, f"`{short(rn.ast, 50)}` -> next `{short(L.step_stmt, 40)}`", why, loc(L.mi, rn.ast), wit)
+            ob_on_ovar("R3-boundary", "reset-reaches-next-step", ok, f"`{short(rn.ast, 50)}` -> next `{short(L.step_stmt, 40)}`", why, loc(L.mi, rn.ast), wit)
         # staleness: every cycle S -> S redefines the observation
-        defnodes = {i for i, _ in all_defs}
+        defnodes = {i for i, d in all_defs if not _is_self_wrap(d)}
         stale = None
         if S not in defnodes:
             stale = cfg.paths_avoiding(S, S, defnodes)
-        ck.ob("R3-boundary", site, "no-stale-observation", stale is None, f"every path from `{short(L.step_stmt, 40)}` back to itself redefines `{ovar}`",
-              "" if stale is None else f"a path from env.step back to env.step never updates `{ovar}`: the next action and transition use a stale observation",
-              loc(L.mi, L.step_stmt), cfg.describe_path(stale) if stale else None)
+        if stale is not None and any(ovar in cfg.nodes[i].mutates for i in stale):
+            und(f"{site}: the observation `{ovar}` is updated in place on a path from env.step back to env.step (unrecognised form)")
+        else:
+            ob_on_ovar("R3-boundary", "no-stale-observation", stale is None, f"every path from `{short(L.step_stmt, 40)}` back to itself redefines `{ovar}`",
+                  "" if stale is None else f"a path from env.step back to env.step never updates `{ovar}`: the next action and transition use a stale observation",
+                  loc(L.mi, L.step_stmt), cfg.describe_path(stale) if stale else None)
         if not L.vector:
-            ck.ob("R3-boundary", site, "has-in-loop-reset", bool(L.resets_in), f"{len(L.resets_in)} in-loop reset(s)",
-                  "" if L.resets_in else "single-environment loop without an in-loop reset", loc(L.mi, L.step_stmt))
+            if L.resets_in:
+                ck.ob("R3-boundary", site, "has-in-loop-reset", True, f"{len(L.resets_in)} in-loop reset(s)", "", loc(L.mi, L.step_stmt))
+            elif _env_confined(L):
+                # every use of the environment in the function is `env.<attribute>` and none of them is `env.reset` inside the loop
+                ck.ob("R3-boundary", site, "has-in-loop-reset", False, f"0 in-loop reset(s); `{L.env}` is only used through its attributes",
+                      "single-environment loop without an in-loop reset", loc(L.mi, L.step_stmt))
+            else:
+                und(f"{site}: no `{L.env}.reset()` in the loop, but the environment is passed on / aliased: a reset may happen elsewhere (unrecognised form)")
 
         # ---- R4 act site ----------------------------------------------------------------------------------
-        nextvar = L.pos.get(0)
-        used = _obs_uses_in_action(cfg, L, avar, ovar, nextvar, body)
-        pol = [u for u in used if u[0] == ovar]
-        if not pol and not any(isinstance(x, ast.Name) and x.id == ovar and isinstance(x.ctx, ast.Load) for nid_ in body if cfg.nodes[nid_].ast is not None for x in ast.walk(cfg.nodes[nid_].ast)):
-            raise AnalysisError(f"{site}: the observation variable `{ovar}` is never read in the loop (the observation is kept elsewhere: unrecognised form)")
-        ck.ob("R4-act-on-current", site, "policy-sees-observation", bool(pol), f"action `{avar}` computed from `{ovar}` at {len(pol)} site(s)",
-              "" if pol else f"no definition of the action reaching env.step reads the current observation `{ovar}`", loc(L.mi, L.step_stmt))
+        succ = [u for u in used if u[0] == nextvar and u[0] != ovar and any(d.node == S for d in cfg.defs_of(u[1], u[0]))]
+        if pol or succ:
+            ck.ob("R4-act-on-current", site, "policy-sees-observation", bool(pol), f"action `{avar}` computed from `{ovar}` at {len(pol)} site(s)",
+                  "" if pol else f"the definitions of the action reaching env.step read the successor observation `{nextvar}` and never the current observation `{ovar}`", loc(L.mi, L.step_stmt))
+        # after an in-loop reset the action of the first step of the new episode is computed anew: a path from the reset to env.step on which
+        # the action keeps a value chosen before the reset (it is not recomputed, only copied) is a witness
+        fresh, closure = _stale_action_nodes(cfg, L, act)
+        kept = None
+        for r, r_from in bound_resets:
+            pth = cfg.paths_avoiding(r_from, S, fresh)
+            if pth is not None:
+                kept = (r, pth)
+                break
+        if bound_resets:
+            ck.ob("R4-act-on-current", site, "action-chosen-after-reset", kept is None, f"every path from an in-loop reset to `{short(L.step_stmt, 40)}` recomputes `{avar}`",
+                  "" if kept is None else f"after `{short(cfg.nodes[kept[0]].ast, 40)}` the action `{avar}` passed to env.step is not computed again (copies of {sorted(closure)} only): "
+                  f"the first action of the new episode was chosen for the previous episode's last observation",
+                  loc(L.mi, L.step_stmt), cfg.describe_path(kept[1]) if kept else None)
+        if not pol and not succ and kept is None:
+            und(f"{site}: no definition of the action `{avar}` made in the same iteration before env.step reads the observation variable `{ovar}` (the observation reaches the policy in an unrecognised form)")
         for name, at, expr in used:
             node = cfg.nodes[at]
             if name == nextvar and name != ovar:
+                if not any(d.node == S for d in cfg.defs_of(at, name)):
+                    und(f"{site}: `{name}` read by `{short(expr, 50)}` is not the result of env.step there (unrecognised form)")
+                    continue
                 ck.ob("R4-act-on-current", site, "acts-on-successor", False, f"`{short(expr, 60)}`",
                       f"the action passed to env.step is computed from `{name}` (successor observation of the previous step), not from the current observation", loc(L.mi, node.ast))
                 continue
-            here = rd[at].get(name, frozenset())
+            here = _eff_defs(cfg, at, name)
             between = _defs_between(cfg, at, S, name)
-            ok = here == defs_at_S and not between
+            ok = here == eff_at_S and not between
             ck.ob("R4-act-on-current", site, "same-observation-as-stored", ok, f"`{short(expr, 60)}`",
-                  "" if ok else f"the observation read when acting (defs at lines {_lines(cfg, here)}) differs from the one stored (lines {_lines(cfg, defs_at_S)})",
+                  "" if ok else f"the observation read when acting (defs at lines {_lines(cfg, here)}) differs from the one stored (lines {_lines(cfg, eff_at_S)})",
                   loc(L.mi, node.ast))
-        n_sites_box[0] += n_sites
 
     for L in loops:
         ck.guard(one_loop, L)
@@ -424,7 +756,7 @@ def _defs_between(cfg: CFG, a: int, b: int, name: str):
     for n in cfg.nodes:
         if n.id in (a, b):
             continue
-        if any(d.name == name for d in n.defs):
+        if any(d.name == name and not _is_self_wrap(d) for d in n.defs):
             p1 = cfg.paths_avoiding(a, n.id, {b, a})
             p2 = cfg.paths_avoiding(n.id, b, {a}) if p1 is not None else None
             if p1 is not None and p2 is not None:
@@ -484,6 +816,16 @@ MUTANTS = [
      "find": "        dataset.add_sample(observation, action, next_observation, reward)", "replace": "        action = np.asarray(sample(policy, jnp.array(observation), subkey))\n        dataset.add_sample(observation, action, next_observation, reward)"},
     {"id": "c01-a2c-store-next-obs", "file": "rl_blox/algorithm/a2c.py", "rule": "R2", "find": "            obs=obs,\n            actions=action,", "replace": "            obs=next_obs,\n            actions=action,"},
     {"id": "c01-mrq-trunc-term-swap", "file": "rl_blox/algorithm/mrq.py", "rule": "R1", "find": "            terminated=terminated,\n            truncated=truncated,", "replace": "            terminated=truncated,\n            truncated=terminated,"},
+    {"id": "c01-sarsa-action-carried-over-reset", "file": "rl_blox/algorithm/sarsa.py", "rule": "R4", "edits": [
+        ("    observation, _ = env.reset()\n\n    if logger is not None:\n        logger.start_new_episode()\n\n    steps_per_episode = 0\n",
+         "    observation, _ = env.reset()\n    key, subkey = jax.random.split(key)\n    action = epsilon_greedy_policy(q_table, observation, epsilon, subkey)\n\n    if logger is not None:\n        logger.start_new_episode()\n\n    steps_per_episode = 0\n"),
+        ("        key, subkey = jax.random.split(key)\n        action = epsilon_greedy_policy(q_table, observation, epsilon, subkey)\n        steps_per_episode += 1\n", "        steps_per_episode += 1\n"),
+        ("        else:\n            observation = next_observation\n\n    return q_table", "        else:\n            observation = next_observation\n        action = next_action\n\n    return q_table")]},
+    {"id": "c01-ppo-successor-patched-in-place", "file": "rl_blox/algorithm/ppo.py", "rule": "R2", "edits": [
+        ("        obs = jnp.copy(next_obs)\n", "        obs = np.asarray(next_obs)\n"), ("                obs = obs.at[i].set(o)\n", "                obs[i] = o\n")]},
+    {"id": "c01-reinforce-no-reset", "file": "rl_blox/algorithm/reinforce.py", "rule": "R3", "find": "            observation, _ = env.reset()\n            dataset.start_episode()", "replace": "            dataset.start_episode()"},
+    {"id": "c01-td3-first-observation-stored", "file": _TD3, "rule": "R2", "edits": [
+        ("    obs, _ = env.reset(seed=seed)\n    steps_per_episode = 0\n", "    obs, _ = env.reset(seed=seed)\n    first_obs = obs\n    steps_per_episode = 0\n"), ("            observation=obs,\n            action=action,", "            observation=first_obs,\n            action=action,")]},
     {"id": "c01-ddpg-stale-sometimes", "file": "rl_blox/algorithm/ddpg.py", "rule": "R3", "find": "        else:\n            obs = next_obs\n\n    return namedtuple(\n        \"DDPGResult\"", "replace": "        elif steps_per_episode % 7 != 0:\n            obs = next_obs\n\n    return namedtuple(\n        \"DDPGResult\""},
 ]
 BENIGN = [
@@ -493,6 +835,26 @@ BENIGN = [
     {"id": "c01-b-td3-logging", "file": _TD3, "find": "        steps_per_episode += 1\n        accumulated_reward += reward\n", "replace": "        steps_per_episode += 1\n        accumulated_reward += reward\n        if logger is not None:\n            logger.record_stat(\"r\", reward)\n"},
     {"id": "c01-b-dqn-reward-float", "file": "rl_blox/algorithm/dqn.py", "find": "        accumulated_reward += reward\n        replay_buffer.add_sample(", "replace": "        reward = float(reward)\n        accumulated_reward += reward\n        replay_buffer.add_sample("},
     {"id": "c01-b-sarsa-reset-first", "file": "rl_blox/algorithm/sarsa.py", "find": "            steps_per_episode = 0\n            observation, _ = env.reset()", "replace": "            observation, _ = env.reset()\n            steps_per_episode = 0"},
+    {"id": "c01-b-dqn-step-action-keyword", "file": "rl_blox/algorithm/dqn.py", "find": "env.step(int(action))", "replace": "env.step(action=int(action))"},
+    {"id": "c01-b-td3-observation-copy-stored", "file": _TD3, "edits": [
+        ("        next_obs, reward, termination, truncated, info = env.step(action)\n", "        acted_on = obs\n        next_obs, reward, termination, truncated, info = env.step(action)\n"),
+        ("            observation=obs,\n            action=action,", "            observation=acted_on,\n            action=action,")]},
+    {"id": "c01-b-sac-reset-into-successor-then-carry", "file": "rl_blox/algorithm/sac.py", "edits": [
+        ("            obs, _ = env.reset()\n            steps_per_episode = 0\n            accumulated_reward = 0.0\n\n        else:\n            obs = next_obs\n\n        progress.update()",
+         "            next_obs, _ = env.reset()\n            steps_per_episode = 0\n            accumulated_reward = 0.0\n\n        obs = next_obs\n\n        progress.update()")]},
+    {"id": "c01-b-dynaq-int-after-reset", "file": "rl_blox/algorithm/dynaq.py", "find": "            obs, _ = env.reset()\n            accumulated_reward = 0.0", "replace": "            obs, _ = env.reset()\n            obs = int(obs)\n            accumulated_reward = 0.0"},
+    {"id": "c01-b-mc-update-by-keyword", "file": "rl_blox/algorithm/monte_carlo.py",
+     "find": "                rew_arr[start_t : i + 1],\n                obs_arr[start_t : i + 1],\n                act_arr[start_t : i + 1],\n                gamma,",
+     "replace": "                observations=obs_arr[start_t : i + 1],\n                actions=act_arr[start_t : i + 1],\n                rewards=rew_arr[start_t : i + 1],\n                gamma=gamma,"},
+    {"id": "c01-b-a2c-second-copy-of-successor", "file": "rl_blox/algorithm/a2c.py", "find": "        obs = next_obs\n        global_step += num_envs", "replace": "        obs = next_obs\n        final_obs = next_obs\n        global_step += num_envs"},
+    {"id": "c01-b-ddpg-observation-asarray-before-step", "file": "rl_blox/algorithm/ddpg.py",
+     "find": "        next_obs, reward, termination, truncated, info = env.step(action)\n        steps_trained", "replace": "        obs = np.asarray(obs)\n        next_obs, reward, termination, truncated, info = env.step(action)\n        steps_trained"},
+    {"id": "c01-b-reinforce-add-sample-in-base-class", "file": "rl_blox/algorithm/reinforce.py", "edits": [
+        ("class EpisodeDataset:\n    \"\"\"Collects samples batched in episodes.\"\"\"\n", "class _EpisodeStore:\n    \"\"\"Episode-wise storage.\"\"\"\n"),
+        ("    def _indices(self) -> list[int]:\n", "\nclass EpisodeDataset(_EpisodeStore):\n    \"\"\"Collects samples batched in episodes.\"\"\"\n\n    def _indices(self) -> list[int]:\n")]},
+    {"id": "c01-b-reinforce-keyword-only-record", "file": "rl_blox/algorithm/reinforce.py", "edits": [
+        ("    def add_sample(\n        self,\n        observation: jnp.ndarray,", "    def add_sample(\n        self,\n        *,\n        observation: jnp.ndarray,"),
+        ("        dataset.add_sample(observation, action, next_observation, reward)", "        dataset.add_sample(reward=reward, observation=observation, action=action, next_observation=next_observation)")]},
     {"id": "c01-b-reinforce-carry-in-else", "file": "rl_blox/algorithm/reinforce.py",
      "find": "        observation = next_observation\n\n        if done:", "replace": "        if not done:\n            observation = next_observation\n\n        if done:"},
 ]
